@@ -519,6 +519,76 @@ def run(ctx):
                         got, out[0:2], want_compl,
                         "-" if want_compl else "+"))
     ctx.exhaustive[R] = True
+
+    # ------------------------------------------------------------------
+    R = "C12.segment_end_equality"
+    ctx.rule(R, "two segment ends are the same end when they name the same "
+             "segment and the same side, whatever stands for the segment: "
+             "the line, a placeholder created by a forward reference, a line "
+             "of another Gfa, or the bare identifier (is_eql / is_complement "
+             "/ the duplicate search compare the ends of links built at "
+             "different moments)", floor=12)
+    SE = repo.cls("SegmentEnd")
+    S1c = repo.cls("line.segment.GFA1")
+    f_seq = ctx.anchor("SegmentEnd.__eq__", SE.find_method("__eq__"))
+
+    class EH(LineHooks):
+        def eq(self, ev, a, b):
+            # Line.__eq__: content (a string equals a line of that name)
+            if isinstance(a, Abs) and isinstance(b, Abs) and \
+                    "content" in a.attrs and "content" in b.attrs:
+                return a.attrs["content"] == b.attrs["content"]
+            for x, y in ((a, b), (b, a)):
+                if isinstance(x, Abs) and "content" in x.attrs and \
+                        isinstance(y, str):
+                    return x.attrs["name"] == y
+            return super().eq(ev, a, b)
+
+        def construct(self, ev, cls, args, kwargs):
+            if cls is SE and len(args) == 1:
+                v = args[0]
+                if isinstance(v, str):
+                    return end(v[:-1], v[-1:])
+                if isinstance(v, list) and len(v) == 2:
+                    return end(v[0], v[1])
+            return super().construct(ev, cls, args, kwargs)
+
+    def sg(name, content):
+        return Abs(S1c, label="S:%s/%s" % (name, content), name=name,
+                   content=(name, content))
+
+    def end(seg_, et):
+        # (the evaluator keeps private names as written)
+        return Abs(SE, label="end", **{"__segment": seg_, "__end_type": et})
+    real, virt, other_gfa = sg("A", "real"), sg("A", "virtual"), \
+        sg("A", "tagged")
+    forms = {"line": real, "placeholder": virt, "line of another Gfa":
+             other_gfa, "identifier": "A"}
+    for (n1, s1), (n2, s2), e2, as_ in itertools.product(
+            forms.items(), forms.items(), "RL", ("end", "str", "list")):
+        if as_ != "end" and n2 != "identifier":
+            continue
+        ctx.instance(R)
+        a = end(s1, "R")
+        b = end(s2, e2) if as_ == "end" else \
+            ("A" + e2 if as_ == "str" else ["A", e2])
+        out = eval_function(repo, f_seq, [a, b], hooks=EH(repo))
+        want = e2 == "R"
+        ok = out[0] == "return" and bool(out[1]) == want
+        ctx.oblige(ok)
+        if not ok:
+            ctx.violation(R, f_seq.short, "A:R (%s) == A:%s (%s, as %s)" % (
+                n1, e2, n2, as_), "answers %r, expected %r" % (out[1], want))
+    for s2, e2 in ((sg("B", "real"), "R"), ("B", "R")):
+        ctx.instance(R)
+        out = eval_function(repo, f_seq, [end(real, "R"), end(s2, e2)],
+                            hooks=EH(repo))
+        ok = out[0] == "return" and not out[1]
+        ctx.oblige(ok)
+        if not ok:
+            ctx.violation(R, f_seq.short, "A:R == B:R", "answers %r" %
+                          (out[1],))
+    ctx.exhaustive[R] = True
     ctx.notes["domain"] = ("CIGAR codes MIDNSHPX=; links over segments {a,b}, "
                            "orientations {+,-}, overlaps {X, X', Y, *}")
     ctx.assume("overlap values are opaque: X' is the complement of X, '*' is "
